@@ -313,20 +313,20 @@ func c09LegacyCase(t *testing.T, out *zzverif.Out, rng *zzverif.Rng, dir, tag st
 			patch: [][]c09LResp{{opened}}}
 		if faulty {
 			if rng.Chance(1, 3) {
-				l.head = c09LGen(rng, []c09LResp{present, absent, absent, {500, false}, {304, false}}, no401)
+				l.head = c09LGen(rng, []c09LResp{present, absent, absent, {500, false}, {304, false}, {0, false}}, no401)
 			}
 			if rng.Chance(1, 3) {
-				l.post = c09LGen(rng, []c09LResp{opened, opened, {500, false}, {202, false}}, noPost)
+				l.post = c09LGen(rng, []c09LResp{opened, opened, {500, false}, {202, false}, {404, false}, {0, false}}, noPost)
 			}
 			if rng.Chance(1, 3) {
 				l.patch = nil
 				for k := rng.Range(1, 7); k > 0; k-- {
-					l.patch = append(l.patch, c09LGen(rng, []c09LResp{opened, {500, false}, {503, false}, {202, false}, {308, true}}, noPatch))
+					l.patch = append(l.patch, c09LGen(rng, []c09LResp{opened, {500, false}, {503, false}, {202, false}, {308, true}, {0, false}}, noPatch))
 				}
 			}
 			if rng.Chance(1, 3) {
 				for k := rng.Range(1, 7); k > 0; k-- {
-					l.commit = append(l.commit, c09LGen(rng, []c09LResp{stored, {500, false}, {404, false}, {304, false}, {300, false}}, no401))
+					l.commit = append(l.commit, c09LGen(rng, []c09LResp{stored, {500, false}, {404, false}, {304, false}, {300, false}, {0, false}}, no401))
 				}
 			}
 		}
@@ -340,7 +340,7 @@ func c09LegacyCase(t *testing.T, out *zzverif.Out, rng *zzverif.Rng, dir, tag st
 		}
 	}
 	if rng.Chance(1, 4) {
-		reg.man = c09LGen(rng, []c09LResp{{200, false}, {201, false}, {500, false}, {304, false}}, no401)
+		reg.man = c09LGen(rng, []c09LResp{{200, false}, {201, false}, {500, false}, {304, false}, {0, false}}, no401)
 	}
 	if exhaustive {
 		k, rest := idx/(len(c09LStatuses)*2), idx%(len(c09LStatuses)*2)
